@@ -165,7 +165,66 @@ func (g *gen) assignStmt() []Stmt {
 	return []Stmt{&Assign{Targets: []Expr{N(v.name)}, Exprs: []Expr{e}}}
 }
 
+// targetOrderStmt: in a multiple assignment the sub-expressions of all
+// targets (tables and keys) are evaluated before any assignment happens
+// (manual §3.3.3: `i, a[i] = i+1, 20` sets a[3] when i was 3).
+func (g *gen) targetOrderStmt() []Stmt {
+	g.feat("multi-assign-target-order")
+	ix, tb, nd := g.fresh("ix"), g.fresh("tb"), g.fresh("nd")
+	k := int64(1 + g.n(4, "mato-k"))
+	five := &Table{Items: []TItem{{Val: I(10)}, {Val: I(20)}, {Val: I(30)}, {Val: I(40)}, {Val: I(50)}, {Val: I(60)}}}
+	switch g.n(5, "mato-form") {
+	case 0:
+		return []Stmt{&Do{Body: []Stmt{
+			&Local{Names: []string{ix, tb}, Exprs: []Expr{I(k), five}},
+			&Assign{Targets: []Expr{N(ix), Idx(N(tb), N(ix))}, Exprs: []Expr{B("+", N(ix), I(1)), I(99)}},
+			Emit(S("i,a[i]"), N(ix), Idx(N(tb), I(k)), Idx(N(tb), I(k+1))),
+		}}}
+	case 1:
+		// the key is assigned after the indexed target in the list
+		return []Stmt{&Do{Body: []Stmt{
+			&Local{Names: []string{ix, tb}, Exprs: []Expr{I(k), five}},
+			&Assign{Targets: []Expr{Idx(N(tb), N(ix)), N(ix)}, Exprs: []Expr{I(77), B("+", N(ix), I(1))}},
+			Emit(S("a[i],i"), N(ix), Idx(N(tb), I(k)), Idx(N(tb), I(k+1))),
+		}}}
+	case 2:
+		// the table variable itself is replaced: the field goes into the old table
+		old := g.fresh("old")
+		return []Stmt{&Do{Body: []Stmt{
+			&Local{Names: []string{tb}, Exprs: []Expr{&Table{}}},
+			&Local{Names: []string{old}, Exprs: []Expr{N(tb)}},
+			&Assign{Targets: []Expr{N(tb), Field(N(tb), "x")}, Exprs: []Expr{&Table{}, I(k)}},
+			Emit(S("t,t.x"), Field(N(old), "x"), Field(N(tb), "x"), B("==", N(old), N(tb))),
+		}}}
+	case 3:
+		// linked list append: cur, cur.next = node, node
+		cur := g.fresh("cur")
+		return []Stmt{&Do{Body: []Stmt{
+			&Local{Names: []string{cur}, Exprs: []Expr{&Table{Items: []TItem{{NameKey: "v", Val: I(0)}}}}},
+			&Local{Names: []string{"head"}, Exprs: []Expr{N(cur)}},
+			&NumFor{Var: "q", Start: I(1), Limit: I(k), Body: []Stmt{
+				&Local{Names: []string{nd}, Exprs: []Expr{&Table{Items: []TItem{{NameKey: "v", Val: N("q")}}}}},
+				&Assign{Targets: []Expr{N(cur), Field(N(cur), "next")}, Exprs: []Expr{N(nd), N(nd)}},
+			}},
+			Emit(S("list"), Field(Field(N("head"), "next"), "v"), Field(N(cur), "v"), Field(N(cur), "next")),
+		}}}
+	default:
+		// upvalue as key, assigned in the same statement, inside a closure
+		return []Stmt{&Do{Body: []Stmt{
+			&Local{Names: []string{ix, tb}, Exprs: []Expr{I(k), five}},
+			&Local{Names: []string{"bump"}, Exprs: []Expr{&Func{Body: []Stmt{
+				&Assign{Targets: []Expr{N(ix), Idx(N(tb), N(ix)), Idx(N(tb), B("+", N(ix), I(1)))}, Exprs: []Expr{B("+", N(ix), I(1)), S("at-old"), S("after-old")}},
+			}}}},
+			&CallStmt{Call: C(N("bump"))},
+			Emit(S("upvalue-key"), N(ix), Idx(N(tb), I(k)), Idx(N(tb), I(k+1)), Idx(N(tb), I(k+2))),
+		}}}
+	}
+}
+
 func (g *gen) multiAssignStmt() []Stmt {
+	if g.chance(35, "massign-target-order") {
+		return g.targetOrderStmt()
+	}
 	c := newEctx()
 	a := g.assignable(kInt, c)
 	b := g.assignable(kInt, c)
